@@ -501,6 +501,7 @@ ZSTDMT_serialState_reset(serialState_t* serialState,
         assert(params.ldmParams.hashRateLog < 32);
     } else {
         ZSTD_memset(&params.ldmParams, 0, sizeof(params.ldmParams));
+        ZSTDMT_setNbSeq(seqPool, 0);   /* no sequence buffers for the jobs of a frame without LDM */
     }
     serialState->nextJobID = 0;
     if (params.fParams.checksumFlag)
